@@ -25,13 +25,14 @@ type State struct {
 	guard *Term
 	cells map[*ssa.Alloc]*Term
 	heap  map[string]*Term
+	cacheEpoch int   // observer calls that can only fill caches
 	obsEpoch int     // number of observer calls so far (cache/ID components first read later are fresh per epoch)
 	epoch  string    // heap epoch: components not in heap are the constants H<epoch>_<name>
 	splits [][]*Term // guards of the states merged at each join since the last cut point (case-split hints)
 }
 
 func (s *State) clone() *State {
-	n := &State{guard: s.guard, cells: make(map[*ssa.Alloc]*Term, len(s.cells)), heap: make(map[string]*Term, len(s.heap)), splits: s.splits, epoch: s.epoch, obsEpoch: s.obsEpoch}
+	n := &State{guard: s.guard, cells: make(map[*ssa.Alloc]*Term, len(s.cells)), heap: make(map[string]*Term, len(s.heap)), splits: s.splits, epoch: s.epoch, obsEpoch: s.obsEpoch, cacheEpoch: s.cacheEpoch}
 	for k, v := range s.cells {
 		n.cells[k] = v
 	}
@@ -103,6 +104,7 @@ type FnExec struct {
 	tuples map[ssa.Value][]*Term
 	lemmasUsed map[*Axiom]bool
 	callBindings []*Term // bindings of the closure whose contract is being applied
+	opaqueTargets []*ssa.Function // possible targets of the call being treated as opaque
 	privAllocs map[*ssa.Alloc]bool
 	privRefs   map[*ssa.Alloc]*Term
 }
@@ -193,6 +195,11 @@ func (fx *FnExec) heapGet(st *State, name string, s Sort) *Term {
 	ep := st.epoch
 	if ep == "" {
 		ep = "0"
+	}
+	if st.cacheEpoch > 0 && st.obsEpoch == 0 && idFieldRe.MatchString(name) && !strings.HasSuffix(name, "ID") {
+		t := fx.c.Fresh("cache"+fmt.Sprint(st.cacheEpoch)+"_"+name, s)
+		st.heap[name] = t
+		return t
 	}
 	if st.obsEpoch > 0 && (idFieldRe.MatchString(name) || strings.HasPrefix(name, "G_")) {
 		// possibly written by an earlier observer call: unknown, but stable from now on
@@ -493,7 +500,7 @@ func (fx *FnExec) assignCheck(st *State, lv *LVal, p token.Pos) {
 			continue
 		}
 		if loc.whole != "" {
-			if loc.whole == fieldHeapName(lv.si, lv.fidx) {
+			if loc.whole == fieldHeapName(lv.si, lv.fidx) || (loc.whole == "caches" && cacheFieldName(lv.si.st.Field(lv.fidx).Name())) {
 				allowed = append(allowed, True)
 			}
 			continue
@@ -569,12 +576,13 @@ func (fx *FnExec) globalRef(g *ssa.Global) *Term {
 	name := "glob_" + sanitize(g.Pkg.Pkg.Path()+"."+g.Name())
 	t := fx.c.Const(name, SInt)
 	key := "globax " + name
+	// globals live below any allocation made during verification and are non-nil & distinct
+	id := int64(fx.e.typeTag(types.NewNamed(types.NewTypeName(token.NoPos, nil, "glob:"+name, nil), types.Typ[types.Int], nil)))
 	if !fx.c.trusted[key] {
 		fx.c.trusted[key] = true
-		// globals live below any allocation made during verification and are non-nil & distinct
-		id := int64(fx.e.typeTag(types.NewNamed(types.NewTypeName(token.NoPos, nil, "glob:"+name, nil), types.Typ[types.Int], nil)))
 		fx.c.defs = append(fx.c.defs, Eq(t, IntLit(1000000+id)))
 	}
+	nameDefs[name] = IntLit(1000000 + id)
 	return t
 }
 
@@ -729,6 +737,7 @@ type modSet struct {
 	full  map[string]bool        // component modified in a way not attributable to a known object
 	sites map[string][]ssa.Value // direct stores: the object / slice / map operand per component
 	opaque bool // contains a call with unknown heap effects
+	caches bool // contains a call that may fill the Typ / Successors caches
 }
 
 func (fx *FnExec) rootAlloc(v ssa.Value) *ssa.Alloc {
@@ -758,6 +767,9 @@ func (fx *FnExec) loopModSet(li *loopInfo) *modSet {
 			fx.instrMods(ins, tmp)
 			if tmp.opaque {
 				ms.opaque = true
+			}
+			if tmp.caches {
+				ms.caches = true
 			}
 			var site ssa.Value
 			fresh := false
@@ -1015,6 +1027,9 @@ func (fx *FnExec) mergeStates(ins []*State) *State {
 		if s.obsEpoch > st.obsEpoch {
 			st.obsEpoch = s.obsEpoch
 		}
+		if s.cacheEpoch > st.cacheEpoch {
+			st.cacheEpoch = s.cacheEpoch
+		}
 	}
 	st.epoch = ins[0].epoch
 	for _, s := range ins[1:] {
@@ -1138,8 +1153,7 @@ func (fx *FnExec) loopHead(li *loopInfo, st *State) {
 		old := fx.heapGet(st, h, ms.heaps[h])
 		nv := fx.c.Fresh("hvh_"+h, ms.heaps[h])
 		if h == "alloc" {
-			st.heap[h] = nv
-			fx.c.Assume(Implies(st.guard, Ge(nv, old)))
+			fx.advanceAlloc(st)
 			continue
 		}
 		// frame: objects that exist at the loop head and are not the target of a
@@ -1147,6 +1161,7 @@ func (fx *FnExec) loopHead(li *loopInfo, st *State) {
 		if !ms.full[h] && strings.HasPrefix(string(ms.heaps[h]), "(Array Int ") {
 			var bases []*Term
 			ok := true
+			anyFresh := false
 			for _, site := range ms.sites[h] {
 				b, fresh, res := fx.loopInvariantRef(st, li, ms, site)
 				if !res {
@@ -1155,7 +1170,22 @@ func (fx *FnExec) loopHead(li *loopInfo, st *State) {
 				}
 				if !fresh {
 					bases = append(bases, b)
+				} else {
+					anyFresh = true
 				}
+			}
+			if ok && !anyFresh && len(bases) <= 6 {
+				// all stores of the loop hit objects known at the loop head: only their contents change
+				cur := old
+				seen := map[string]bool{}
+				for _, b := range bases {
+					if !seen[b.String()] {
+						seen[b.String()] = true
+						cur = Store(cur, b, fx.c.Fresh("hvo_"+h, ms.heaps[h].elemSort()))
+					}
+				}
+				st.heap[h] = fx.c.Name("hvh_"+h, cur)
+				continue
 			}
 			if ok {
 				r := Var("r!f", SInt)
@@ -1173,6 +1203,10 @@ func (fx *FnExec) loopHead(li *loopInfo, st *State) {
 			}
 		}
 		st.heap[h] = nv
+	}
+	if ms.caches && !ms.opaque {
+		fx.opaqueTargets = []*ssa.Function{}
+		fx.observerHavoc(st)
 	}
 	// 3. assume invariant
 	env = fx.specEnvAt(st, li.head)
